@@ -20,15 +20,16 @@ from dst.ctx import StopRun
 NAME = "C07"
 PROPERTY = "C07"
 LEVEL = "exploration"
-RULE = ("one evaluation = one seeded history (<= 16 operations, <= 14 files in 3 directories, origins of 5..60 events, referrers "
+RULE = ("one evaluation = one seeded history (<= 14 operations, <= 18 files in 3 directories, origins of 5..60 events, referrers "
         "of <= 120 events, chains of depth <= 4): origins with identity-encoding scalar/image/mask/contour/trace data; exports "
         "(basins=True, filtered or not, features subset or none) from files and from hierarchy children of depth 1-2 under manual "
         "and box filters; store_basin referrers (unmapped, subset, superset with repeats, permutation, long maps, feature "
         "restrictions, explicit map names, two basins, internal basins, deliberately different own features); compress/repack "
         "copies; reads with integer, negative, slice, boolean mask, index array, [:], repeated np.asarray and len; file-system "
         "events (move together, move referrer, delete, rename, replace by another measurement). After every producing and every "
-        "file-system operation the affected files are read completely and compared with the model. non-trivial = >= 1 referrer "
-        "produced and >= 1 comparison; distinct = distinct event-log digests")
+        "file-system operation the affected files are read completely, through the dataset and through each of its basins "
+        "separately, and compared with the model. non-trivial = >= 1 referrer produced and >= 1 comparison; distinct = distinct "
+        "event-log digests")
 STATE_MEASURE = "distinct (producer, chain depth, mapping kind, feature kind, access kind / file-system situation) tuples"
 PROBES = ["chain_depth_3", "chain_depth_4", "child_export", "child_export_of_basin_file", "basin_only_export", "export_with_stored",
           "unfiltered_export", "box_filter", "map_superset", "map_permutation", "map_crosses_chunk", "two_basins", "two_basins_shared_map",
@@ -44,15 +45,22 @@ COMPONENTS = {
 }
 ASSUMPTIONS = [
     "where a file offers the same feature through several basins with different data (a referrer that overrides a feature, exported "
-    "without that feature) every such provider is accepted; only data from none of them is a violation",
+    "without that feature) every such provider is accepted; only data from none of them is a violation (which of equally ranked "
+    "basins dclab asks first depends on the hash of the basin definition, i.e. on the path)",
     "a feature must be available when some stored location (absolute, or relative to the referrer's directory) points to the intended "
     "target and the run identifiers are compatible by dclab's documented rule (equal for unmapped, prefix for mapped basins); "
     "otherwise it may be unavailable, and if it is delivered it must still be the right data",
+    "a referrer without any measurement identifier cannot reject a replaced origin (documented: 'no certainty'); for such referrers "
+    "the measurement lying at a stored location is accepted as provider",
     "the run identifier of an exported file is read back from the file (dclab appends a random suffix); nothing else of the "
-    "expectation is taken from what dclab wrote",
-    "'contour' is not judged as unavailable while 'mask' is available (dclab recomputes it from the mask by design)",
+    "expectation is taken from what dclab wrote, maps are composed from the filter arrays that were applied",
+    "'contour' is not judged where dclab may recompute it from an available 'mask' (in the file or inside a basin's target) "
+    "because no basin that must resolve delivers it",
     "index arrays are increasing and boolean masks have at least one True entry (h5py restrictions that equally apply to stored features)",
     "replacement measurements and other origins never carry a run identifier that is a prefix of the referrer's identifier",
+    "failures while building a hierarchy child are counted, not judged (C04); failures of compress/repack themselves are counted (C08)",
+    "the repeated np.asarray access is reduced to one conversion where dclab's per-event route would cost more than 20000 element "
+    "reads (n**levels through nested mapped basins)",
 ]
 
 SCAL = ["pos_x", "pos_y", "size_x", "temp", "userdef1", "fl1_max"]
@@ -75,7 +83,7 @@ def plan(tier):
 def make_trace(seed, tier):
     r = seeds.rng(seed, "plan")
     return {"knobs": {"chunk_bytes": r.choice([1024 ** 2, 1024 ** 2, 640, 96, 64])},
-            "max_ops": r.choice([6, 10, 16]), "ops": None}
+            "max_ops": r.choice([5, 9, 14]), "ops": None}
 
 
 # -----------------------------------------------------------------------------------
@@ -413,7 +421,10 @@ class World:
         if x < 0:
             feats = r.sample(SCAL, r.randint(2, 4)) + r.sample(NONSC, min(len(NONSC), r.choice([1, 2, 3, 4, 4])))
             return {"k": "origin", "n": r.choice([5, 7, 9, 12, 17, 23, 31, 44, 60]), "feats": feats, "dir": r.randrange(NDIRS),
-                    "noid": r.random() < 0.03}
+                    # (origins without any measurement identifier are not generated: their exports carry no
+                    #  identifier either, and a referrer without identifier gives 'no certainty' by dclab's own
+                    #  documentation - nothing the property promises can be judged for them)
+                    "noid": False}
         i = r.choice(us)
         if x < 0.55 and r.random() < 0.35:
             # favour long chains: derive from the deepest file that may still be a source
@@ -451,7 +462,7 @@ class World:
         feats = [f for f in ALLF if f in op["feats"]] or ["pos_x"]
         noid = bool(op.get("noid"))
         F = self.new_file(op["dir"], "o", "origin", None, n)
-        F.rid = None if noid else f"rid-{F.fid}"
+        F.rid = None if noid else f"rid-{F.fid:02d}"
         F.noid = noid
         pid = self.new_pid()
         with RTDCWriter(F.path, mode="reset") as hw:
@@ -899,7 +910,7 @@ class World:
                         Z.fs = "indirect"
                     todo.append(Z)
         seen = [Y for Y in seen if Y.basins and not Y.tainted]
-        for Y in sorted(seen, key=lambda y: y.fid)[:5]:
+        for Y in sorted(seen, key=lambda y: y.fid)[:3]:
             self.check_file(Y, why="fs")
 
     # ------------------------------------------------------------------ oracles
